@@ -68,6 +68,12 @@ func runC10(c *core.Ctx) {
 		if hi%9 == 8 {
 			al.Capacity = r.Range(300, 1200) // large buffers: paths that depend on the size
 		}
+		if hi%50 == 49 && c.Mode != "race" {
+			// more than 65536 samples, a size that no small number divides
+			al.Channels = r.Pick(1, 3)
+			al.Capacity = 70001/al.Channels + r.Range(1, 9)
+			c.Obs("histories_with_more_than_65536_samples_per_buffer", 1)
+		}
 		switch r.Intn(3) {
 		case 0:
 			al.Length = 0
@@ -77,6 +83,9 @@ func runC10(c *core.Ctx) {
 			al.Length = r.Range(0, al.Capacity)
 		}
 		steps := r.Pick(50, 200, r.Range(50, 2000))
+		if al.Channels*al.Capacity > 65536 {
+			steps = 60
+		}
 		if c.Mode == "race" {
 			steps = r.Range(50, 400)
 		}
@@ -259,6 +268,9 @@ func c10History(c *core.Ctx, r *core.Rand, t *dyn.TypeOps, al signal.Allocator, 
 						for i := 0; i < k; i++ {
 							full.SetSample(r.Intn(full.Len()), stamp())
 						}
+						// and the two ends of the capacity
+						full.SetSample(full.Len()-1-r.Intn(min(3, full.Len())), stamp())
+						full.SetSample(r.Intn(min(3, full.Len())), stamp())
 					}
 				default:
 					if conv == nil { // no same-type conversion instantiated for this (named) type
